@@ -491,3 +491,9 @@ Definition ewf_b (g : graph) : bool :=
           (n_owners n)
       else true))
     (seq 0 (length (g_nodes g))).
+
+(* ---- the hypothesis of the C01 source theorem (Proofs/TraverseSrc.v): the worker a node's results are attributed to (the
+        first worker id in its name) is the node's only owner ---- *)
+Definition fw_ok_b (g : graph) : bool :=
+  forallb (fun n => n_flat n || n_root n ||
+                    match n_first_worker n with Some v => forallb (Nat.eqb v) (n_owners n) | None => true end) (g_nodes g).
